@@ -10,7 +10,8 @@ from ..gen import ast, program
 
 ID = "C18"
 RULE = ("generated programs (C03 generator) printed by two independent printers (SCSS, indented) and rewritten by "
-        "token-preserving rewriters (LF->CRLF/CR/FF, blank lines, trailing spaces, `//` comment lines, leading BOM/@charset, "
+        "token-preserving rewriters (LF->CRLF/CR/FF, blank lines, trailing spaces, `//` comment lines, spaces between tokens replaced by "
+        "newlines / indentation / tabs / end-of-line comments, leading BOM/@charset, "
         "consistent and inconsistent `_`/`-` swaps in variable, function and mixin names); golden-corpus inputs under the "
         "newline/BOM/@charset rewrites; plain-CSS outputs of the corpus re-parsed as CSS and as SCSS; a list of Sass-only "
         "constructs that CSS mode must reject. non-trivial = the base compilation succeeds with non-empty output or "
@@ -61,8 +62,63 @@ def variants_of_scss(rng, text, generated):
         out.append(("underscores", NAME_RX.sub(lambda m: m.group(0).replace("-", "_"), text)))
         out.append(("mixed-underscores", NAME_RX.sub(lambda m: m.group(0).replace("-", "_") if rng.chance(0.5) else m.group(0), text)))
         # more spaces around tokens that are always separable in the printed form
+        if "--" not in text and "url(" not in text:
+            out.append(("inner-whitespace", respace(rng, text)))
+            out.append(("inner-whitespace", respace(rng, text)))
         out.append(("spaces", text.replace(": ", ":   ").replace(", ", " ,  ").replace(" {", "   {").replace(";", " ;")))
     return out
+
+
+def respace(rng, text):
+    """replace single spaces between tokens (outside quoted strings and comments) by other whitespace: a newline with
+    or without indentation, CRLF, a tab, or a silent comment running to the end of the line. Not after a comma: Sass
+    deliberately keeps a line break that follows a comma of a selector list."""
+    out = []
+    stack = []          # open contexts: a quote character, or "{" for an interpolation opened inside a string
+    i, n = 0, len(text)
+    while i < n:
+        c = text[i]
+        in_string = bool(stack) and stack[-1] in "\"'"
+        if in_string:
+            out.append(c)
+            if c == "\\" and i + 1 < n:
+                out.append(text[i + 1])
+                i += 2
+                continue
+            if c == stack[-1]:
+                stack.pop()
+            elif c == "#" and text[i:i + 2] == "#{":
+                out.append("{")
+                stack.append("{")
+                i += 2
+                continue
+        elif c in "\"'":
+            stack.append(c)
+            out.append(c)
+        elif c == "{" and stack:
+            stack.append("(")      # a nested brace inside an interpolation (maps etc. use parens, but stay safe)
+            out.append(c)
+        elif c == "}" and stack:
+            stack.pop()
+            out.append(c)
+        elif c == "/" and text[i:i + 2] == "//" and not stack:
+            j = text.find("\n", i)
+            j = n if j < 0 else j
+            out.append(text[i:j])
+            i = j
+            continue
+        elif c == "/" and text[i:i + 2] == "/*" and not stack:
+            j = text.find("*/", i + 2)
+            j = n if j < 0 else j + 2
+            out.append(text[i:j])
+            i = j
+            continue
+        elif c == " " and not stack and 0 < i < n - 1 and text[i - 1] not in " \n," and text[i + 1] not in " \n" and rng.chance(0.3):
+            out.append(rng.choice(["\n", "\n", "\n    ", "\r\n", "\t", " // c\n", "\n\n", "\f"]))
+        else:
+            out.append(c)
+        i += 1
+    return "".join(out)
 
 
 def variants_of_sass(rng, text):
